@@ -61,8 +61,10 @@ private:
   void execute() noexcept { this->execute_(this); }
 
   thread_unsafe_event_loop& loop_;
-  operation_base* next_;
-  operation_base** prevPtr_;
+  operation_base* next_ = nullptr;
+  // non-null only while the operation is in the loop's queue; the cancel
+  // callback, which can run before the operation is enqueued, relies on this
+  operation_base** prevPtr_ = nullptr;
   execute_fn* execute_;
 
 protected:
